@@ -3,6 +3,7 @@ C10 — streaming calls always progress, and a completed flush is decodable.
 (c) the decoder's input pacing: fed exactly what it asks for, it asks for exactly the frame, never beyond it.
 -/
 import ZstdVerif.Model.Stream
+import ZstdVerif.Lemmas.DStreamRT
 namespace ZstdVerif.Props.C10
 open ZstdVerif.Stream
 
@@ -62,5 +63,31 @@ theorem hints_within_frame (f : FrameShape) (hb : f.blocks ≠ []) (hh : 5 ≤ f
 
 example : hints ⟨false, 7, [845], true, 0⟩ = [5, 5, 845, 4] := by decide
 example : hints ⟨true, 8, [0], false, 0⟩ = [5, 3] := by decide
+
+
+/-! ### (a) every decoding call makes progress (model of ZSTD_decompressStream, tied call by call to the real code) -/
+
+open DStream in
+/-- **dstream_progress**: a call that is offered input and output room, on a well-formed stream, consumes or produces at least one byte
+unless it reports an error -/
+theorem dstream_progress (all : List FrameD) (hok : AllOk all) (s : State) (hinv : Inv all s) (inAvail outCap : Nat)
+    (hlim : s.totalIn + inAvail ≤ sizeAll all) (hi : 0 < inAvail) (ho : 0 < outCap)
+    (hne : ∀ e, (step s inAvail outCap).2.ret ≠ .err e) :
+    0 < (step s inAvail outCap).2.consumed ∨ 0 < (step s inAvail outCap).2.produced :=
+  DStream.progress_input all hok s hinv inAvail outCap hlim hi ho hne
+
+open DStream in
+/-- **dstream_no_livelock**: such a call strictly decreases the remaining work `(input left) + (output left)` ... -/
+theorem dstream_no_livelock (all : List FrameD) (hok : AllOk all) (s : State) (hinv : Inv all s) (inAvail outCap : Nat)
+    (hlim : s.totalIn + inAvail ≤ sizeAll all) (hi : 0 < inAvail) (ho : 0 < outCap)
+    (hne : ∀ e, (step s inAvail outCap).2.ret ≠ .err e) :
+    slack all (step s inAvail outCap).1 < slack all s :=
+  DStream.no_livelock all hok s hinv inAvail outCap hlim hi ho hne
+
+open DStream in
+/-- ... hence ANY history of such calls is at most `compressed size + content size` calls long: the decoder cannot be kept busy forever -/
+theorem dstream_calls_bounded (all : List FrameD) (hok : AllOk all) (io : List (Nat × Nat)) (s : State) (hinv : Inv all s)
+    (hf : Feasible all s io) (hoff : Offered io) : io.length ≤ slack all s :=
+  DStream.calls_bounded all hok io s hinv hf hoff
 
 end ZstdVerif.Props.C10
